@@ -119,7 +119,9 @@ func RunOne(seed uint64, explicit []uint64, build Build, wantTrace, wantTape boo
 	for _, v := range simrt.Violations() {
 		res.Violations = append(res.Violations, v)
 	}
-	if st.Dead {
+	if st.Dead && len(res.Violations) == 0 {
+		// (a deadlock that follows a crash or hang of one party is a
+		// consequence, already reported under that signature)
 		res.Violations = append(res.Violations, simrt.Violation{Sig: "harness:sim-deadlock", Msg: "no task eligible and no timer pending"})
 	}
 	if wantTrace {
